@@ -25,6 +25,7 @@ CHARS = {
     'quote': ["'", '"'],
     'ws': ['\t', '\n', '\r'],
     'nl': ['\n'],
+    'cr': ['\r', '\x85', '\u2028', '\u2029', '\r'],
     'ctl': ['\x00', '\x01', '\x08', '\x0b', '\x0c', '\x0e', '\x1f'],
     'nonascii': ['\xe9', '\x80', '\x85', '\xa0', ' ', '中', '�', '퟿', '', '\U00010000', '\U0001F600', '\U0010ffff'],
     'nonchar': ['￾', '￿', '\ud800', '\udfff'],
@@ -480,7 +481,8 @@ def run(ctx):
     consts = {'Names': frozenset(['a', 'b']),
               'AttrVals': frozenset([('plain',), ('quote', 'ws'), ('ctl',), ('nonchar', 'markup'), ('nonascii', 'quote')]),
               'Texts': frozenset([(), ('plain', 'markup'), ('ws', 'nonascii'), ('ctl', 'quote'), ('nonchar',)]),
-              'BrTexts': frozenset([(), ('plain',), ('nl',), ('markup', 'nl', 'plain'), ('nl', 'nl', 'quote'), ('plain', 'plain', 'nl')])}
+              'BrTexts': frozenset([(), ('plain',), ('nl',), ('markup', 'nl', 'plain'), ('nl', 'nl', 'quote'), ('plain', 'plain', 'nl'),
+                                    ('plain', 'cr', 'plain'), ('cr', 'nl', 'plain'), ('plain', 'cr')])}
     r, states = ctx.tlc_dump('MC_XmlStream', 'XmlStream', consts=consts, cfg_consts={'MaxCalls': str(maxcalls), 'F7': 'FALSE'},
                              invariants=['WellFormed', 'Faithful', 'StackMatchesOutput', 'BoundOK'],
                              need_actions=['StartElement', 'Characters', 'CharsBr', 'Comment', 'EndElement', 'Exit'], timeout=1500)
